@@ -133,7 +133,14 @@ def _resolve_slice(slize: Slice) -> Sliceable:
     if len(ls) == 1:  # Resolved to single Slice
         return ls[0]
     elif len(ls) > 1:  # Multiple parts required - concatenate them
-        return Concat(*ls)
+        # Note full-width entries may have resolved to (flat) `Concat`s themselves. Splice their parts in.
+        parts = []
+        for entry in ls:
+            if isinstance(entry, Concat):
+                parts.extend(entry.parts)
+            else:
+                parts.append(entry)
+        return Concat(*parts)
 
     raise RuntimeError(f"Error resolving Slice {slize}")
 
